@@ -364,14 +364,16 @@ FastForward
 
 // fastForward is used whilst in CatchingUp state to reset the underlying
 // hashgraph from a Block and associated Frame.
-func (c *core) fastForward(block *hg.Block, frame *hg.Frame) error {
+// checkFastForward verifies a Block and Frame received in a FastForwardResponse
+// without changing anything: structure, signatures (+1/3 of the Frame's
+// peer-set), Frame hash, and endorsement by a known validator.
+func (c *core) checkFastForward(block *hg.Block, frame *hg.Frame) error {
 	// The Block and Frame come from the network: make sure they can be
 	// handled at all before looking at their content.
 	if err := checkFastForwardInput(block, frame); err != nil {
 		return err
 	}
 
-	c.logger.Debug("Fast Forward", frame.Round)
 	peerSet := peers.NewPeerSet(frame.Peers)
 
 	// Check Block Signatures
@@ -397,7 +399,17 @@ func (c *core) fastForward(block *hg.Block, frame *hg.Frame) error {
 		return err
 	}
 
-	err = c.hg.Reset(block, frame)
+	return nil
+}
+
+func (c *core) fastForward(block *hg.Block, frame *hg.Frame) error {
+	if err := c.checkFastForward(block, frame); err != nil {
+		return err
+	}
+
+	c.logger.Debug("Fast Forward", frame.Round)
+
+	err := c.hg.Reset(block, frame)
 	if err != nil {
 		return err
 	}
